@@ -127,6 +127,9 @@ def build(cfg, rng=None):
                 chart.pop(p, None)
             elif stt == "empty":
                 chart[p] = ""
+            elif cfg.get("ws") == p and p not in ("BPMS", "STOPS", "DELAYS", "WARPS"):
+                chart[p] = {"TIMESIGNATURES": " ", "TICKCOUNTS": "\n", "COMBOS": "\t", "SPEEDS": " \r\n", "SCROLLS": "\n\n", "FAKES": "  ", "LABELS": "\n"}[p]
+                # (a value made of blanks only is still a non-empty value: the chart is the source)
             else:
                 chart[p] = C_VAL[p][bidx(cfg, "c")] if p == "BPMS" else C_VAL[p]
         st = cfg["off"]["c"]
@@ -392,7 +395,8 @@ def run(ctx):
                "db": {"s": rng.choice(["absent", "empty", "one", "two", "star", "three", "junk", "junkcolon"]),
                       "c": rng.choice(["absent", "empty", "one", "two", "star", "three", "junk", "junkcolon"])},
                "nb": {"s": rng.choice([1, 2]), "c": rng.choice([1, 3])}, "ignore": rng.random() < 0.3, "replica": False,
-               "eqb": rng.random() < 0.25, "dupb": rng.random() < 0.15}
+               "eqb": rng.random() < 0.25, "dupb": rng.random() < 0.15,
+               "ws": rng.choice(["TIMESIGNATURES", "TICKCOUNTS", "COMBOS", "SPEEDS", "SCROLLS", "FAKES", "LABELS"]) if rng.random() < 0.3 else ""}
         how = rng.random()
         if how < 0.15 and cfg["chart"] == "ssc":
             # the chart repeats the song's timing (lists non-empty on both sides), OFFSET / DISPLAYBPM differ
